@@ -107,14 +107,44 @@ func (w *World) AttachMonitor(m *Monitor, then func(*Decoded)) {
 		if prev != nil {
 			prev(f)
 		}
-		d := m.Check(f)
-		if d.Err != nil {
-			w.Fail("malformed-frame", "", "frame %d emitted on link %d does not decode under the RFC-derived decoder: %v (%d bytes: % x)", f.ID, f.Link, d.Err, len(f.Data), head(f.Data, 64))
-		}
+		d := w.checkFrame(m, f)
 		if then != nil {
 			then(d)
 		}
 	}
+}
+
+// checkFrame decodes one emitted frame and applies the checks that need no
+// knowledge of the scenario: syntax, lengths, checksums, identifiers, and that
+// the source address is one of the emitting interface's own.
+func (w *World) checkFrame(m *Monitor, f *Frame) *Decoded {
+	d := m.Check(f)
+	if d.Err != nil {
+		w.Fail("malformed-frame", "", "frame %d emitted on link %d does not decode under the RFC-derived decoder: %v (%d bytes: % x)", f.ID, f.Link, d.Err, len(f.Data), head(f.Data, 64))
+		return d
+	}
+	w.Probes["frames_decoded"]++
+	l := w.Links[f.Link]
+	if currentProp != "C06" {
+		return d
+	}
+	if d.IP != nil && len(l.Addrs) > 0 {
+		ok := false
+		for _, a := range l.Addrs {
+			if sameAddr(d.IP.Src, string(a)) {
+				ok = true
+			}
+		}
+		if !ok {
+			w.Fail("wrong-source-address", "", "frame %d emitted on link %d has source address % x, which is not assigned to that interface (%d addresses known)", f.ID, f.Link, d.IP.Src, len(l.Addrs))
+		} else {
+			w.Probes["source_address_checked"]++
+		}
+	}
+	if d.ARP != nil && len(l.Addrs) > 0 && l.addr != "" && !bytes.Equal(d.ARP.SHA, []byte(l.addr)) {
+		w.Fail("wrong-source-link-address", "", "ARP packet %d emitted on link %d names sender hardware address % x, the interface has % x", f.ID, f.Link, d.ARP.SHA, []byte(l.addr))
+	}
+	return d
 }
 
 func head(b []byte, n int) []byte {
